@@ -197,6 +197,59 @@ def Spec.ddlStatus (k : DdlKind) (name : Ident) (noop : Bool) : Option (List Cha
     else some (statusPrefix k ++ name.norm ++ statusSuffix k)
   else some successText.toList
 
+/-- `IDENTIFIER('<text>')` as object name: `transforms.identifier` turns the literal's text into ONE unquoted identifier (after
+    `upper_case_unquoted_identifiers` has run, so the `.upper()` in the status branch is what upper-cases it) -/
+def identifierArg (lit : List Char) : Ident := ⟨lit, false⟩
+
+/-- the text after the last `.` -/
+def lastPart (cs : List Char) : List Char := cs.foldl (fun acc c => if c = '.' then [] else acc ++ [c]) []
+
+/-- what Snowflake resolves `IDENTIFIER('<text>')` to, for the status row: the object's own (last) name part, unquoted -/
+def Spec.identifierName (lit : List Char) : Ident := ⟨lastPart lit, false⟩
+
+def ddlFindingIdentifier (k : DdlKind) (lit : List Char) : Option String :=
+  if k.named ∧ lit.contains '.' then some "C04/ddl-status-identifier-qualified" else none
+
+/-! ### order of the client-side phases of `cursor.execute` (cursor.py:138-139): variables are inlined into the command
+    text FIRST, pyformat/format parameters are bound AFTERWARDS -/
+
+/-- a command text with placeholders -/
+inductive Seg
+  | text (s : List Char)
+  | ph                         -- `%s` / `%(name)s`
+  | lit (v : List Char)        -- a bound value, rendered as a quoted literal
+deriving DecidableEq, Repr
+
+/-- `_inline_variables`: some substitution `f` applied to the command text (placeholders are not text) -/
+def inlineSegs (f : List Char → List Char) : List Seg → List Seg
+  | [] => []
+  | .text s :: r => .text (f s) :: inlineSegs f r
+  | x :: r => x :: inlineSegs f r
+
+/-- `_rewrite_with_params`: placeholders are replaced, left to right, by the bound values -/
+def bindSegs : List Seg → List (List Char) → List Seg
+  | [], _ => []
+  | .ph :: r, v :: vs => .lit v :: bindSegs r vs
+  | x :: r, vs => x :: bindSegs r vs
+
+/-- the values that reach the engine as literals -/
+def litValues : List Seg → List (List Char)
+  | [] => []
+  | .lit v :: r => v :: litValues r
+  | _ :: r => litValues r
+
+def placeholders : List Seg → Nat
+  | [] => 0
+  | .ph :: r => placeholders r + 1
+  | _ :: r => placeholders r
+
+/-- the code's order: inline, then bind -/
+def prepare (f : List Char → List Char) (cmd : List Seg) (vs : List (List Char)) : List Seg := bindSegs (inlineSegs f cmd) vs
+
+/-- the wrong order (bind, then inline over everything incl. the bound literals) -/
+def prepareSwapped (f : List Char → List Char) (cmd : List Seg) (vs : List (List Char)) : List Seg :=
+  (bindSegs cmd vs).map fun | .lit v => .lit (f v) | .text s => .text (f s) | .ph => .ph
+
 /-- finding regions of the DDL status (single source of truth for the driver) -/
 def ddlFinding (k : DdlKind) (name : Ident) (noop : Bool) : Option String :=
   if k.splicesName ∧ name.norm.contains '\'' then some "C04/ddl-quote-in-name"
